@@ -19,6 +19,15 @@ func VX_C10_MapperTable(args []int) {
 	for _, r := range rpc {
 		vxAssert(RPCServiceMethodMapper("", r[0]) == r[1], "RPC mapping table: "+r[0])
 	}
+	// the rules of the table applied to identifiers with several separators
+	http2 := [][2]string{{"Aa_Bb_Cc", "/aa/bb/cc"}, {"A_B_C", "/a/b/c"}, {"aa_bb_cc_dd", "/aa/bb/cc/dd"}, {"Aa_Bb__Cc_Dd", "/aa/bb_cc/dd"}, {"User_Profile_Get", "/user/profile/get"}, {"AaBb_CcDd_EeFf", "/aa_bb/cc_dd/ee_ff"}, {"Aa__Bb__Cc", "/aa_bb_cc"}}
+	for _, r := range http2 {
+		vxAssert(HTTPServiceMethodMapper("", r[0]) == r[1], "HTTP mapping, several separators: "+r[0])
+	}
+	rpc2 := [][2]string{{"Aa_Bb_Cc", "Aa.Bb.Cc"}, {"aa_bb_cc_dd", "aa.bb.cc.dd"}, {"Aa_Bb__Cc_Dd", "Aa.Bb_Cc.Dd"}, {"Aa__Bb__Cc", "Aa_Bb_Cc"}}
+	for _, r := range rpc2 {
+		vxAssert(RPCServiceMethodMapper("", r[0]) == r[1], "RPC mapping, several separators: "+r[0])
+	}
 	vxAssert(HTTPServiceMethodMapper("/grp", "AaBb") == "/grp/aa_bb", "HTTP mapping with prefix")
 	vxAssert(RPCServiceMethodMapper("grp", "AaBb") == "grp.AaBb", "RPC mapping with prefix")
 	vxCover("c10.table")
